@@ -46,6 +46,10 @@ def correspondence(ctx):
     # the model's rules about git itself (merge = up to date / fast-forward / new commit, when the content merge is
     # consulted), against Bert-E's git layer on real git: harness/gittie.py
     gittie.run(ctx, res, (24 if ctx.tier == 'quick' else 600) * ctx.scale)
+    # queue merges in ANY state of the q/ refs: the real QueueCollection.validate() + merge_queues on corrupted
+    # queues against Model/QValidate.lean (C01_queue_validated): harness/qvalidate.py
+    from . import qvalidate
+    res.merge(qvalidate.phase(ctx, PID))
     return res
 
 
@@ -54,4 +58,8 @@ def replay(ctx, payload):
     if g is not None:
         from .pipeline import Result
         return gittie.replay(ctx, Result(), g)
+    from . import qvalidate
+    q = qvalidate.replay_input(payload)
+    if q is not None:
+        return qvalidate.replay(ctx, q)
     return syscheck.replay_history(ctx, PID, payload)
